@@ -705,6 +705,16 @@ def apply_as_grid_ufunc(
                     f"does not appear in argument"
                     f"{arg}"
                 )
+            other_dims = [
+                d
+                for d in grid.axes[n].coords.values()
+                if d != ax_pos and d in arg.dims
+            ]
+            if other_dims:
+                raise ValueError(
+                    f"Input argument {i} has more than one dimension of Axis {n!r}: "
+                    f"{ax_pos!r} and {other_dims}"
+                )
 
             # TODO also check that dims are the right length for their stated Axis positions on inputs?
 
